@@ -240,12 +240,14 @@ fn replay(args: &Args) -> i32 {
         let path = r["path"].as_array().unwrap();
         let parent = Value::Array(path[..path.len() - 1].to_vec()).to_string();
         let Some(s) = snaps.get(&parent) else {
-            missing += 1; // TLC workers raced: the parent was printed with another path; replay from the root
+            // the model's fixed prefix (or a parent printed with another path): replay from the root
+            missing += 1;
             let s0 = snaps.get("[]").unwrap().clone();
             w.restore(&s0);
             for c in &path[..path.len() - 1] {
                 let _ = guarded(|| w.on_executed(&call_from_json(c)));
             }
+            snaps.insert(parent, w.snapshot());
             let c = call_from_json(&path[path.len() - 1]);
             exec_and_log(&mut w, &c, true, &mut sink);
             snaps.insert(Value::Array(path.to_vec()).to_string(), w.snapshot());
